@@ -376,6 +376,30 @@ def conserve(R):
                     if (fv + '.is_control', False) in l or (CTL, False) in l]
         R.ob('C01.conserve', 'final data frame queued before the message is built', not skipping,
              'a data message can be built without its final frame', func=q, node=y.ast)
+    # generic: per-message stream state (any field the stream reads back when it queues / builds messages) is not written
+    # while a control frame is handled - a Ping between two fragments would change how the message around it is assembled
+    cls = R.prog.classes.get('stream.WebsocketStream')
+    readers = set()
+    if cls is not None:
+        for fi_ in R.prog.funcs.values():
+            if fi_.cls is not None and fi_.cls.qual == 'stream.WebsocketStream' and fi_.name not in ('__repr__', '__str__'):
+                for x in ast.walk(fi_.node):
+                    if isinstance(x, ast.Attribute) and isinstance(x.ctx, ast.Load) and U(x.value) == 'self':
+                        readers.add(x.attr)
+    for n in g.live_nodes():
+        if n.kind != 'stmt' or not isinstance(n.ast, (ast.Assign, ast.AugAssign)) or n not in g.succ_reach(nxt_):
+            continue
+        tgts = n.ast.targets if isinstance(n.ast, ast.Assign) else [n.ast.target]
+        for t in tgts:
+            if isinstance(t, ast.Attribute) and U(t.value) == 'self' and t.attr in readers and t.attr != '_frames':
+                bad = []
+                for l in path_conditions(R, g, rd, nxt_, n):
+                    if (fv + '.is_control', False) not in l and (CTL, False) not in l:
+                        bad.append(sorted(x[0] for x in l if x[1])[:4])
+                R.ob('C01.conserve', 'stream state `%s` is not written while handling a control frame' % t.attr, not bad,
+                     'self.%s is written on a path that a Ping/Pong/Close frame takes (%s) and read back when messages are '
+                     'assembled: a control frame between the fragments of a message changes how that message is built'
+                     % (t.attr, bad[:1]), func=q, node=n.ast, construct='stream field %s written for control frames' % t.attr)
     w = stores_in_package(R, '_frames')
     quals = sorted(set(c.func.qual for (c, s, t, v) in w))
     okw = all(qq in ('stream.WebsocketStream.__init__', q) for qq in quals)
